@@ -134,16 +134,26 @@ def Vis.block (v : Vis) (k : Kind) : Option (List Ident) :=
   | .hide vs fs => some (if k = .var then vs else fs)
   | _ => none
 
+/-- does the show/hide list of this kind let the (forwarded) name through -/
+def visAllows (vis : Vis) (k : Kind) (n : Ident) : Bool :=
+  match vis.safe k, vis.block k with
+  | some s, _ => s.contains n
+  | none, some b => !b.contains n
+  | none, none => true
+
+/-- the `LimitedMapView` part of `forwarded_map` (mod.rs:172-178) -/
+def limitBy (vis : Vis) (k : Kind) (v1 : View) : View :=
+  match vis.safe k, vis.block k with
+  | some s, _ => View.safelist v1 s
+  | none, some b => if b.isEmpty then v1 else View.blocklist v1 b
+  | none, none => v1
+
 /-- `ForwardedModule::forwarded_map` (mod.rs:156). -/
 def forwardedMap (sw : Switches) (k : Kind) (r : FwdRule) (v : View) : View :=
   let v1 := match r.pfx with
     | some p => View.prefixed sw.prefixedKeysBug v p
     | none => v
-  if sw.ignoreLists then v1 else
-  match r.vis.safe k, r.vis.block k with
-  | some s, _ => View.safelist v1 s
-  | none, some b => if b.isEmpty then v1 else View.blocklist v1 b
-  | none, none => v1
+  if sw.ignoreLists then v1 else limitBy r.vis k v1
 
 structure Fwd where
   rule : FwdRule
@@ -608,11 +618,7 @@ def cssOf (t : List Event) : List Ident := t.filterMap fun e => match e with | .
 def dbgOf (t : List Event) : List Ident := t.filterMap fun e => match e with | .dbg p => some p | _ => none
 
 /-- what a `@forward` rule lets through for one kind: the forwarded (prefixed) name is allowed -/
-def FwdRule.allows (r : FwdRule) (k : Kind) (n : Ident) : Bool :=
-  match r.vis.safe k, r.vis.block k with
-  | some s, _ => s.contains n
-  | none, some b => !b.contains n
-  | none, none => true
+def FwdRule.allows (r : FwdRule) (k : Kind) (n : Ident) : Bool := visAllows r.vis k n
 
 /-- `prefix ∘ filter(show/hide)` of an upstream `get` — the specification of a forward view -/
 def fwdSpecGet (r : FwdRule) (k : Kind) (up : Ident → Option Origin) (n : Ident) : Option Origin :=
@@ -621,6 +627,25 @@ def fwdSpecGet (r : FwdRule) (k : Kind) (up : Ident → Option Origin) (n : Iden
     | some p => if p.isPrefixOf n then up (n.drop p.length) else none
     | none => up n
   else none
+
+/-- The specification of what module `id` exposes, written without views: its own public members,
+    else the last `@forward` whose prefix and show/hide lists let the name through, applied to what
+    the forwarded module exposes. -/
+def specGet (k : Kind) : List Mod → Nat → Ident → Option Origin
+  | [], _, _ => none
+  | m :: rest, id, n =>
+    if id = rest.length then
+      (if !isPrivate n && (m.names k).contains n then some ⟨id, n⟩ else none).or
+        (m.fwds.reverse.findSome? fun f => fwdSpecGet f.rule k (specGet k rest f.target) n)
+    else specGet k rest id n
+
+def cssCount (p : Ident) (t : List Event) : Nat := (cssOf t).count p
+
+def nCss (ss : List Stmt) : Nat := (ss.filter fun s => s == Stmt.css).length
+
+/-- what the generator promises: distinct module names, at most one CSS marker per module -/
+def Project.wf (p : Project) : Bool :=
+  decide (p.map (·.name)).Nodup && p.all fun m => decide (nCss m.body ≤ 1)
 
 /-! ### driver -/
 
@@ -726,9 +751,6 @@ def rdSwitches (s : String) : Option Switches :=
   else if s == "only:viewIterPanics" then some { Switches.spec with viewIterPanics := true }
   else if s == "only:mergedInsertPanics" then some { Switches.spec with mergedInsertPanics := true }
   else none
-
-/-- names must be distinct per module and kind, module names distinct: what the generator promises -/
-def Project.wf (p : Project) : Bool := decide (p.map (·.name)).Nodup
 
 def outStr (o : Out Unit) : String :=
   let evs := " ".intercalate (o.st.trace.map eventStr)
